@@ -31,6 +31,7 @@ RULE_KINDS = {
     "primitive-samples/": "bounded",
     "roundtrip/": "bounded",
     "keys/fixed-width-fields": "structural",
+    "keys/components-as-read": "structural",
     "input/binary-formats-unmodified": "structural",
 }
 EXPLANATION = (
@@ -49,7 +50,13 @@ EXPLANATION = (
     "[key blobs] s/keys/field-schema, field-order, every-written-type-is-readable, type-tags, data-components, writer-types, lsh: the ordered field schema (NS/MP, "
     "component) of every key-type branch of blob / privateBlob / _toString_AGENTV3 / _toString_LSH equals what the matching reader branch consumes; tags agree with "
     "sshType(); every data[...] component exists - structural table agreement (for all keys); keys/fixed-width-fields (no minimal-length integer unframed inside a "
-    "concatenated NS payload) - structural; bounded witnesses roundtrip/binary, roundtrip/lsh. "
+    "concatenated NS payload; what was read as a length-prefixed field is cut further only by position - slices with content-independent bounds - never by "
+    "strip / split / replace / find-based bounds on key material) - structural; keys/components-as-read (the _from*Components builders re-bind a component only when it "
+    "was not given, hand each component on under its own name, and the binary parsers do not re-bind a number between getMP and the builder: no re-ordering or "
+    "normalisation between the wire fields and the key, except in a format's own parser) - structural; bounded witnesses roundtrip/binary, roundtrip/lsh (pool: RSA keys "
+    "with p < q and with p > q, Ed25519 seeds whose last / first byte value also occurs in the public key, encodings ending in whitespace, leading zero bytes). Known "
+    "finding F37a (bounded, reproduced on the real code): an RSA key with p > q does not survive the private LSH round trip (writer exchanges the primes "
+    "unconditionally, reader exchanges them back only if p > q); keys of that class are reported under their own construct so that the finding cannot hide other faults. "
     "[containers] s/container/v1-magic, v1-cipher (names, key size derived from the name, key/IV split by linear normal form), v1-kdf (name, rounds recorded == "
     "rounds used), v1-field-order (writer layout == reader's chain of getNS / unpack), v1-check-words - structural; s/container/pem-kinds: the PEM writer's guards "
     "evaluated for every key class vs. the kinds the reader accepts - finite-exhaustive; bounded witness roundtrip/openssh. "
@@ -197,6 +204,8 @@ def check(ctx):
         _key_roundtrips(ctx)
     with ctx.section('keys/fixed-width'):
         _fixed_width(ctx)
+    with ctx.section('keys/components-as-read'):
+        _components_as_read(ctx)
     with ctx.section('provenance/binary-input'):
         _provenance(ctx)
 
@@ -345,7 +354,8 @@ def _key_pool():
     import hashlib
     pool = []
     e = 65537
-    for label, p, q in (("rsa-a", 2 ** 89 - 1, 2 ** 127 - 1), ("rsa-b", 2 ** 107 - 1, 2 ** 127 - 1)):
+    # both orders of the primes: generated keys have p > q, hand-made fixtures often p < q
+    for label, p, q in (("rsa-a", 2 ** 89 - 1, 2 ** 127 - 1), ("rsa-b", 2 ** 107 - 1, 2 ** 127 - 1), ("rsa-c (p > q)", 2 ** 127 - 1, 2 ** 107 - 1)):
         d = pow(e, -1, (p - 1) * (q - 1))
         pool.append((label, "RSA", K.RSAPrivateKey(K.RSAPrivateNumbers(p, q, d, d % (p - 1), d % (q - 1), pow(q, -1, p), K.RSAPublicNumbers(e, p * q)))))
     # DSA: the stand-ins do not validate group arithmetic; y ends in 0x0a, x in 0x20 (binary encodings ending in whitespace)
@@ -361,10 +371,12 @@ def _key_pool():
             pool.append((f"ec-{curve.key_size}-{label}", "EC", K.derive_private_key(priv, curve())))
     seeds = []
     i = 0
-    while len(seeds) < 2:       # one public key ending in an ASCII whitespace byte, one not
+    while len(seeds) < 4:       # public key ending in an ASCII whitespace byte / not; seed whose last (first) byte value also occurs in the public key
         seed = hashlib.sha256(b"ed-seed%d" % i).digest()
-        last = K.ed_public_of(seed)[-1]
-        if (len(seeds) == 0 and last in (0x20, 0x09, 0x0A, 0x0B, 0x0C, 0x0D)) or (len(seeds) == 1 and last > 0x20):
+        pub_ = K.ed_public_of(seed)
+        last = pub_[-1]
+        if (len(seeds) == 0 and last in (0x20, 0x09, 0x0A, 0x0B, 0x0C, 0x0D)) or (len(seeds) == 1 and last > 0x20) \
+                or (len(seeds) == 2 and seed[-1] in pub_ and seed[-1] != pub_[-1]) or (len(seeds) == 3 and seed[0] in pub_ and seed[-1] not in pub_):
             seeds.append(seed)
         i += 1
     for n, seed in enumerate(seeds):
@@ -424,7 +436,8 @@ def _key_roundtrips(ctx):
                        ("private OpenSSH PEM with passphrase", priv, lambda k: cm(k, "toString", "openssh", subtype="PEM", passphrase=b"secret"), {"passphrase": b"secret"}, {})]
         for route, key, ser, parse_kw, _ in routes:
             n_trips += 1
-            construct = f"{QK[:-1]} | {ktype} {'public' if key is pub else 'private'} key via {route}"
+            # keys of a class with its own known behaviour are reported under their own construct, so that a finding about them cannot hide a new fault of the others
+            construct = f"{QK[:-1]} | {ktype}{' (p > q)' if '(p > q)' in label else ''} {'public' if key is pub else 'private'} key via {route}"
             try:
                 want = facts(key)
                 text = ser(key)
@@ -498,6 +511,93 @@ def _fixed_width(ctx):
                           f"a variable-length integer encoding ({bad}) is concatenated without its own length prefix: values with leading zero bytes give a "
                           "shorter string, the reader cannot find the field boundaries (fromString(toString()) fails / fingerprint differs)")
     ctx.floor("keys/fixed-width-fields", n_cat, 2, "concatenated NS payloads")
+    # (2) general: what was read as a length-prefixed field (getNS / getMP) is cut further only by position: slices whose bounds do not depend on the
+    #     content; content-dependent trimming (strip / split / replace / find-based bounds ...) of key material moves the field boundary with the key's value
+    n_fields = 0
+    for name, fn in km.items():
+        fields = set()
+        for st in ast.walk(fn):
+            if isinstance(st, ast.Assign) and any(isinstance(c, ast.Call) and call_attr(c) in ("getNS", "getMP") for c in ast.walk(st.value)):
+                fields |= {x.id for t in st.targets for x in ast.walk(t) if isinstance(x, ast.Name)}
+        changed = True
+        while changed:
+            changed = False
+            for st in ast.walk(fn):
+                if isinstance(st, ast.Assign) and len(st.targets) == 1 and isinstance(st.targets[0], ast.Name) and st.targets[0].id not in fields \
+                        and isinstance(st.value, (ast.Subscript, ast.Name)) and any(isinstance(x, ast.Name) and x.id in fields for x in ast.walk(st.value)):
+                    fields.add(st.targets[0].id)
+                    changed = True
+        if not fields:
+            continue
+
+        def on_field(e):
+            """e is a field or a positional cut of one"""
+            while isinstance(e, ast.Subscript):
+                e = e.value
+            return isinstance(e, ast.Name) and e.id in fields
+        for x in ast.walk(fn):
+            if isinstance(x, ast.Call) and isinstance(x.func, ast.Attribute) and on_field(x.func.value):
+                n_fields += 1
+                if x.func.attr in _MODIFIERS - {"decode", "join"} or x.func.attr in ("find", "rfind", "index", "rindex"):
+                    ctx.check(False, "keys/fixed-width-fields", f"{QK}{name} | {src(x)[:60]}",
+                              f"a field read from a length-prefixed string is cut by its content ({src(x)[:60]}): where the cut falls depends on the key's value "
+                              "(e.g. bytes.rstrip(x) removes every trailing byte whose value occurs in x), so some keys come back truncated / do not parse")
+                else:
+                    ctx.ok("keys/fixed-width-fields", f"{QK}{name} | {src(x)[:60]}")
+            if isinstance(x, ast.Subscript) and isinstance(x.slice, ast.Slice) and on_field(x.value):
+                n_fields += 1
+                bounds = [b_ for b_ in (x.slice.lower, x.slice.upper) if b_ is not None]
+                dep = [b_ for b_ in bounds if any(isinstance(c, ast.Call) and not (isinstance(c.func, ast.Name) and c.func.id in ("len", "int")) for c in ast.walk(b_))]
+                ctx.check(not dep, "keys/fixed-width-fields", f"{QK}{name} | {src(x)[:60]}",
+                          f"a field is cut at a position computed from its content ({src(dep[0])[:40] if dep else ''})")
+    ctx.floor("keys/fixed-width-fields", n_fields, 5, "cuts of length-prefixed fields")
+
+
+def _components_as_read(ctx):
+    """The key constructed is made of the components that were read: no re-ordering / normalisation between the wire fields and the numbers objects,
+    except where a format defines one in its own parser."""
+    kcls = ctx.cls(KY, "Key")
+    km = methods(kcls)
+    n = 0
+    for name, fn in km.items():
+        if not (name.startswith("_from") and name.endswith("Components")):
+            continue
+        params = [a.arg for a in fn.args.args[1:]]
+        g = ctx.cfg(fn)
+        for st in statements(fn):
+            tg = st.targets if isinstance(st, ast.Assign) else [st.target] if isinstance(st, (ast.AugAssign, ast.AnnAssign)) else []
+            for x in [y for t in tg for y in ast.walk(t) if isinstance(y, ast.Name) and y.id in params]:
+                n += 1
+                ids = g.ids_of(st)
+                filled = bool(ids) and any(isinstance(g.node(t_).ast, ast.Compare) and src(g.node(t_).ast) == f"{x.id} is None" and lab == "T" for t_, lab in g.edge_guards(ids[0]))
+                ctx.check(filled, "keys/components-as-read", f"{QK}{name} | {src(st)[:60]}",
+                          f"{name} re-binds its component `{x.id}` ({src(st)[:60]}) although a value was given: every parser that builds keys through it returns "
+                          "components different from the ones it read (parsed key != serialised key; only a missing component may be derived)")
+        for c in ast.walk(fn):
+            if isinstance(c, ast.Call):
+                for kw in c.keywords:
+                    if kw.arg in params and isinstance(kw.value, ast.Name) and kw.value.id in params:
+                        n += 1
+                        ctx.check(kw.arg == kw.value.id, "keys/components-as-read", f"{QK}{name} | {src(c.func)}({kw.arg}=...)",
+                                  f"component `{kw.value.id}` is handed to {src(c.func)} as `{kw.arg}`")
+    # in the binary parsers a name bound from getMP / getNS is not bound again before it reaches the constructor
+    for name, fn in km.items():
+        if not name.startswith("_fromString_"):
+            continue
+        g = ctx.cfg(fn)
+        for st in statements(fn):
+            if isinstance(st, ast.Assign) and isinstance(st.value, ast.Call) and call_attr(st.value) == "getMP" and isinstance(st.targets[0], (ast.Tuple, ast.List)):
+                for e in st.targets[0].elts[:-1]:
+                    if not isinstance(e, ast.Name) or e.id == "_":
+                        continue
+                    n += 1
+                    here = g.ids_of(st)
+                    from sa.props._lib_h import def_nodes, edge_path
+                    again = [d for d in def_nodes(g, e.id) if here and d != here[0] and edge_path(g, here, [d], strict=True) is not None
+                             and not (isinstance(g.node(d).ast, ast.Assign) and isinstance(g.node(d).ast.value, ast.Call) and call_attr(g.node(d).ast.value) in ("getMP", "getNS"))]
+                    ctx.check(not again, "keys/components-as-read", f"{QK}{name} | {e.id}",
+                              f"the number read as `{e.id}` is re-bound ({g.node(again[0]).text()[:50] if again else ''}) before the key is built")
+    ctx.floor("keys/components-as-read", n, 10, "component bindings")
 
 
 # ---- provenance: the byte string handed to a binary parser is the caller's byte string ---------------------
@@ -699,6 +799,14 @@ MUTANTS = [
            '', expect_rule='s/dispatch/guess-recognises-written'),
     Mutant('s-curve-table-name', KY, '    b"secp384r1": b"nistp384",',
            '    b"secp384r1": b"nistp-384",', expect_rule='s/keys/type-tags'),
+    # key material cut by content instead of by position; components normalised in the shared builder
+    Mutant("ed25519-seed-cut-at-the-public-key", KY, "            k = combined[:32]\n", "            k = combined.split(a)[0]\n", expect_rule="keys/fixed-width-fields"),
+    Mutant("ed25519-seed-cut-at-the-public-key-bounded", KY, "            k = combined[:32]\n", "            k = combined.rstrip(a)\n", expect_rule="roundtrip/"),
+    Mutant("ed25519-seed-cut-at-found-offset", KY, "            k = combined[:32]\n", "            k = combined[: combined.rfind(a)]\n", expect_rule="keys/fixed-width-fields"),
+    Mutant("rsa-builder-orders-the-primes", KY, "        publicNumbers = rsa.RSAPublicNumbers(e=e, n=n)\n", "        publicNumbers = rsa.RSAPublicNumbers(e=e, n=n)\n        if d is not None:\n            p, q = min(p, q), max(p, q)\n",
+           expect_rule="keys/components-as-read"),
+    Mutant("rsa-builder-orders-the-primes-bounded", KY, "        publicNumbers = rsa.RSAPublicNumbers(e=e, n=n)\n", "        publicNumbers = rsa.RSAPublicNumbers(e=e, n=n)\n        if d is not None:\n            p, q = min(p, q), max(p, q)\n",
+           expect_rule="roundtrip/"),
 ]
 SILENT = [
     Silent("ec-point-to_bytes-fixed-width", KY, "                    + utils.int_to_bytes(data[\"x\"], byteLength)\n                    + utils.int_to_bytes(data[\"y\"], byteLength)\n",
@@ -712,4 +820,6 @@ SILENT = [
     Silent("mp-mask-hex", CM, "    if ord(bn[0:1]) & 128:", "    if bn[0] >= 0x80:"),
     Silent("reader-elif-to-if-chain", KY, "        if keyType == b\"ssh-rsa\":\n            n, e, d, u, p, q, rest = common.getMP(rest, 6)\n            return cls._fromRSAComponents(n=n, e=e, d=d, p=p, q=q)\n        elif keyType == b\"ssh-dss\":",
            "        if b\"ssh-rsa\" == keyType:\n            n, e, d, u, p, q, rest = common.getMP(rest, 6)\n            return cls._fromRSAComponents(n=n, e=e, d=d, p=p, q=q)\n        if keyType == b\"ssh-dss\":"),
+    Silent("ed25519-seed-width-named", KY, "            k = combined[:32]\n", "            seedLength = 32\n            k = combined[:seedLength]\n"),
+    Silent("ed25519-strings-cut-positionally", KY, "            a, combined, rest = common.getNS(rest, 2)\n            k = combined[:32]\n", "            a, combined = common.getNS(rest, 2)[:2]\n            k = combined[0:32]\n"),
 ]
